@@ -23,5 +23,7 @@ GROUP = dict(
            dict(id='theory.inverse2', kind='raw', text=_c.theory_text('inverse2.rs')),
            dict(id='theory.inverse3', kind='raw', text=_c.theory_text('inverse3.rs')),
            dict(id='theory.inverse4', kind='raw', text=_c.theory_text('inverse4.rs')),
+           dict(id='theory.inverse5', kind='raw', text=_c.theory_text('inverse5.rs')),
+           dict(id='theory.inverse6', kind='raw', text=_c.theory_text('inverse6.rs')),
     ],
 )
